@@ -56,6 +56,13 @@ static inline bool json_sv_eq_lit(iora_sv a, const char *lit, size_t len)
       && (len < 5 || a.p[4] == lit[4]) && (len < 6 || a.p[5] == lit[5]) && (len < 7 || a.p[6] == lit[6]) && (len < 8 || a.p[7] == lit[7]);
 }
 
+/* ---- RFC 8259 character classes as by-value macros (no char literals: the contract parser trips on them) ---- */
+#define JSON_IS_DIGIT(c) ((c) >= (char)48 && (c) <= (char)57)
+#define JSON_IS_WS(c) ((c) == (char)32 || (c) == (char)9 || (c) == (char)10 || (c) == (char)13)            /* RFC 8259 section 2: ws */
+#define JSON_IS_CSPACE(c) ((c) == (char)32 || ((c) >= (char)9 && (c) <= (char)13))                         /* std::isspace, "C" locale */
+#define JSON_IS_HEX(c) (JSON_IS_DIGIT(c) || ((c) >= (char)65 && (c) <= (char)70) || ((c) >= (char)97 && (c) <= (char)102))
+#define JSON_HEXVAL(c) ((uint32_t)(JSON_IS_DIGIT(c) ? (c) - 48 : ((c) >= (char)97 ? (c) - 87 : (c) - 55)))
+
 /* ---- number conversion stubs: value not modelled; argument must be exactly the scanned token ---- */
 size_t GJ_num_start;            /* ghost: offset at which the number token starts (bound by the contract to old(_pos)) */
 unsigned GJ_conv_calls;         /* ghost: number of conversion calls */
@@ -75,17 +82,14 @@ static inline json_fcres json_from_chars_i64(const char *first, const char *last
 {
   IORA_ASSERT(__CPROVER_same_object(first, last) && first <= last && JSON_TOKEN_IS(self, first, (size_t)(last - first)),
               "from_chars is applied to exactly the scanned number token [start,_pos)");
+  /* integer path: the token must be  [ minus ] 1*DIGIT  -- std::from_chars would stop silently at a '.', 'e' or 'E' (the code never
+   * looks at result.ptr), i.e. a number with fraction or exponent must not come down this path (witness GK) */
+  IORA_ASSERT(!(GJ_num_start <= GK && GK < self->_pos) || JSON_IS_DIGIT(self->_text.p[GK]) || (GK == GJ_num_start && self->_text.p[GK] == (char)45),
+              "from_chars (integer path) receives a pure integer -?digits: no '.', 'e', 'E' in the scanned token");
   GJ_conv_calls++;
   json_fcres r; r.ptr = last; r.ec = nondet_int();
   if (r.ec == 0) *out = nondet_i64();
   return r;
 }
-
-/* ---- RFC 8259 character classes as by-value macros (no char literals: the contract parser trips on them) ---- */
-#define JSON_IS_DIGIT(c) ((c) >= (char)48 && (c) <= (char)57)
-#define JSON_IS_WS(c) ((c) == (char)32 || (c) == (char)9 || (c) == (char)10 || (c) == (char)13)            /* RFC 8259 section 2: ws */
-#define JSON_IS_CSPACE(c) ((c) == (char)32 || ((c) >= (char)9 && (c) <= (char)13))                         /* std::isspace, "C" locale */
-#define JSON_IS_HEX(c) (JSON_IS_DIGIT(c) || ((c) >= (char)65 && (c) <= (char)70) || ((c) >= (char)97 && (c) <= (char)102))
-#define JSON_HEXVAL(c) ((uint32_t)(JSON_IS_DIGIT(c) ? (c) - 48 : ((c) >= (char)97 ? (c) - 87 : (c) - 55)))
 
 #endif
